@@ -293,13 +293,16 @@ pub const GROUP_ID_MIN: u32 = 2_000_000;
 pub const CLUSTER_ID_MIN: u32 = 3_000_000;
 
 /// The fixed table of multi-code-point clusters.
-pub const CLUSTERS: [&str; 6] = [
+pub const CLUSTERS: [&str; 8] = [
     "\r\n",
     "e\u{301}",
     "\u{1F1E9}\u{1F1EA}",
     "\u{1F468}\u{200D}\u{1F469}\u{200D}\u{1F467}",
     "\u{1100}\u{1161}\u{11A8}",
     "a\u{308}\u{323}",
+    // clusters that exist only under the EXTENDED rules (a legacy segmentation splits them): base + spacing mark, prepend + base
+    "\u{0928}\u{093F}",
+    "\u{0600}1",
 ];
 
 /// What a cluster prints as when it is neither a single code point nor in `CLUSTERS`.
